@@ -509,9 +509,12 @@ type c13PipeCase struct {
 // c13PipeRun: client and server are connected by a transport that buffers
 // nothing (every Write waits for the peer's Read: net.Pipe), and the client is
 // a sequential one: it writes the whole message and only then reads the
-// replies. A server that starts to answer while octets of the message are
-// still outstanding can never finish its write, and the client never its own:
-// "never deadlocks" forbids that, however early the backend made up its mind.
+// replies. What is judged: the conversation completes with one reply per
+// recipient, or - a server-internal deadlock - the client waits for a reply
+// while every goroutine serving the connection is parked on a channel or
+// lock. A server that starts to answer while octets of the message are still
+// outstanding stalls this transport (it cannot finish its write, the client
+// not its own): detected as a state, reported as unspecified (see below).
 func c13PipeRun(c c13PipeCase) Verdict {
 	addrs := []string{"a@x", "b@x", "a@x"}[:c.NRcpt]
 	plan := harness.DataPlan{Read: harness.ReadPlan{Limit: c.ReadLimit}}
@@ -607,7 +610,7 @@ func c13PipeRun(c c13PipeCase) Verdict {
 	w := &harness.Wire{R: r, C: cl, S: sv}
 	parked := ""
 	for deadline := time.Now().Add(harness.Watchdog); !finished && !stuck && parked == "" && time.Now().Before(deadline); {
-		clientWaits := false
+		clientWaits, bothWrite := false, false
 		r.Hub.WaitUntil(func() bool {
 			select {
 			case <-done:
@@ -616,20 +619,24 @@ func c13PipeRun(c c13PipeCase) Verdict {
 			default:
 			}
 			if cl.BlockedInWriteLocked() && sv.BlockedInWriteLocked() {
-				stuck = true
+				bothWrite = true
 				return true
 			}
 			clientWaits = cl.BlockedInReadLocked()
 			return false
 		}, 50*time.Millisecond)
+		if !finished && bothWrite {
+			// (transiently true whenever an early LMTP reply is written while
+			// the delivery is still reading: look at the goroutines)
+			if stuck = w.FlowStallNow(); !stuck {
+				time.Sleep(200 * time.Microsecond)
+			}
+			continue
+		}
 		if !finished && !stuck && clientWaits {
 			// the client waits for a reply: is anybody going to write one?
 			parked = w.DeadlockNow()
 		}
-	}
-	var stacks []string
-	if stuck {
-		stacks = harness.BlockedStacks(harness.ServerGoroutines())
 	}
 	if !finished {
 		cl.Abort()
@@ -650,13 +657,15 @@ func c13PipeRun(c c13PipeCase) Verdict {
 		v.Classes = append(v.Classes, "via_bdat")
 	}
 	if stuck {
-		st := ""
-		for _, g := range stacks {
-			if strings.Contains(g, "(*End).Write") {
-				st = g
-			}
-		}
-		return failf("deadlock", "unbuffered transport, sequential client: the client is blocked writing the message (the server does not read it) and the server is blocked writing a reply (the client does not read yet): neither will ever get on\n%s", trimTo(st, 1500))
+		// The server answers while octets of the message are still
+		// outstanding, the client reads only after it has written: on this
+		// transport neither gets on. Stock go-smtp does the same for a refused
+		// BDAT (reply first, discard afterwards), and no property says when a
+		// reply may be written relative to input the peer is still sending:
+		// unspecified, not a violation of "never deadlocks" (which speaks of
+		// the status bookkeeping inside the server).
+		v.Classes = append(v.Classes, "reply_before_the_message_was_read_flow_stall_unspecified")
+		return v
 	}
 	if parked != "" {
 		return failf("deadlock", "the server is deadlocked: the client waits for a reply and every goroutine serving the connection is parked on a channel or lock:\n%s", trimTo(parked, 2000))
